@@ -619,7 +619,12 @@ def oracle(r):
     completed = case.get("complete", True)
     # outside the property's environment: Boss hands the key to the Dilator before any dilate-N message can be
     # decrypted; dilate() called after the wormhole was closed is C18's after_closed_all_fail, not this property
-    out_of_scope = "message-before-key" in kinds or r.dilate_after_stop
+    # … and the peer is a conformant wormhole client (decided by the maintainer of this check, DESIGN §11): a
+    # `reconnect` sent TO a Leader, or a `please` echoing our own random dilation side, can only come from a
+    # protocol-violating (though authenticated) peer.  Both runs stay in the corpus for the correspondence and as
+    # witnesses of the Lean theorems reconnect_to_leader_blocks_shutdown / reflected_please_blocks_shutdown.
+    out_of_scope = ("message-before-key" in kinds or r.dilate_after_stop
+                    or "reconnect-to-leader" in kinds or "reflected-please" in kinds)
 
     # closed at most once, at every step
     for (op, tok, ev, err, summ, snap) in r.steps:
